@@ -5,7 +5,7 @@
 From Coq Require Import List ZArith NArith Bool.
 From SC Require Import Model.Val Model.Plain.
 Import ListNotations.
-Open Scope Z_scope.
+Local Open Scope Z_scope.
 
 Inductive lop :=
   (* reads *)
@@ -90,7 +90,8 @@ Definition plain_lop (l : list val) (o : lop) : res val * list val :=
   | LEq v => ro (Ok (vbool (veq_py (VL l) v)))
   | LCmp c v => ro (bind (list_compare c l v) (fun b => Ok (vbool b)))
   | LSet i v => mu (list_set l i v)
-  | LSetSlice s v => mu (bind (iter_val v) (fun vs => list_setslice l s vs))
+  | LSetSlice s v => mu (bind (slice_adjust (zlen l) s) (fun _ =>
+                         bind (iter_val v) (fun vs => list_setslice l s vs)))
   | LDel i => mu (list_del l i)
   | LDelSlice s => mu (list_delslice l s)
   | LInsert i v => mu (Ok (list_insert l i v))
